@@ -820,6 +820,8 @@ class Obs:
         else:
             if isinstance(y, np.ndarray):
                 return np.array([self - o for o in y])
+            elif isinstance(y, complex):
+                return CObs(self, 0) - y
             elif y.__class__.__name__ in ['Corr', 'CObs']:
                 return NotImplemented
             else:
@@ -840,6 +842,8 @@ class Obs:
         else:
             if isinstance(y, np.ndarray):
                 return np.array([self / o for o in y])
+            elif isinstance(y, complex):
+                return CObs(self, 0) / y
             elif y.__class__.__name__ in ['Corr', 'CObs']:
                 return NotImplemented
             else:
@@ -851,6 +855,8 @@ class Obs:
         else:
             if isinstance(y, np.ndarray):
                 return np.array([o / self for o in y])
+            elif isinstance(y, complex):
+                return y / CObs(self, 0)
             elif y.__class__.__name__ in ['Corr', 'CObs']:
                 return NotImplemented
             else:
@@ -859,10 +865,16 @@ class Obs:
     def __pow__(self, y):
         if isinstance(y, Obs):
             return derived_observable(lambda x, **kwargs: x[0] ** x[1], [self, y], man_grad=[y.value * self.value ** (y.value - 1), self.value ** y.value * np.log(self.value)])
+        elif isinstance(y, complex):
+            phase = y.imag * np.log(self)
+            return CObs(self ** y.real * np.cos(phase), self ** y.real * np.sin(phase))
         else:
             return derived_observable(lambda x, **kwargs: x[0] ** y, [self], man_grad=[y * self.value ** (y - 1)])
 
     def __rpow__(self, y):
+        if isinstance(y, complex):
+            log_y = np.log(y)
+            return CObs(np.exp(log_y.real * self) * np.cos(log_y.imag * self), np.exp(log_y.real * self) * np.sin(log_y.imag * self))
         return derived_observable(lambda x, **kwargs: y ** x[0], [self], man_grad=[y ** self.value * np.log(y)])
 
     def __abs__(self):
